@@ -171,6 +171,7 @@ func (c *rawClient) take() []string {
 }
 
 type brokerCore struct {
+	pipelined []byte
 	svr     *service.Server
 	clients map[int]*rawClient
 	cbs     map[int]*service.OnPublishFunc
@@ -471,8 +472,22 @@ func (b *brokerCore) handle(ws []string) string {
 		stoppedMu.Unlock()
 		b.clients[id] = c
 		go b.svr.VerifServe(sv)
+		pipelinedDisconnect := false
+		if b.pipelined != nil {
+			bytes = append(bytes, b.pipelined...)
+			pipelinedDisconnect = len(b.pipelined) == 2 && b.pipelined[0] == 0xe0
+			if len(b.pipelined) == 2 && b.pipelined[0] == 0xc0 {
+				c.mu.Lock()
+				c.pings++
+				c.eventPings++
+				c.mu.Unlock()
+			}
+		}
 		c.write(bytes)
 		c.waitUntil(func() bool { return len(c.items) > 0 || c.eof }, brokerWait)
+		if pipelinedDisconnect {
+			c.waitUntil(func() bool { return c.eof }, 2*time.Second)
+		}
 		c.mu.Lock()
 		if len(c.items) > 0 && strings.HasPrefix(c.items[0], "CONNACK") && strings.HasSuffix(c.items[0], " 0") {
 			c.accepted = true
@@ -493,6 +508,22 @@ func (b *brokerCore) handle(ws []string) string {
 			return b.collect(-1, false, map[int][]string{id: items})
 		}
 		return b.collect(id, false, nil)
+	case "firstp":
+		// CONNECT and one further packet in a single write, before the CONNACK is read
+		semi := -1
+		for i, w := range ws {
+			if w == ";" {
+				semi = i
+			}
+		}
+		if semi < 0 {
+			return "bad-op"
+		}
+		pending := clientPacketBytes(ws[semi+1:])
+		b.pipelined = pending
+		res := b.handle(append([]string{"first"}, ws[1:semi]...))
+		b.pipelined = nil
+		return res
 	case "pkt":
 		id := atoi(ws[1])
 		c, ok := b.clients[id]
@@ -582,3 +613,25 @@ func (b *brokerCore) handle(ws []string) string {
 	return "bad-op"
 }
 
+
+// clientPacketBytes encodes a client-to-server packet given in the op-line grammar of `pkt`.
+func clientPacketBytes(ws []string) []byte {
+	switch ws[0] {
+	case "publish":
+		return parseWPub(ws[1:]).encode()
+	case "subscribe":
+		var ts [][]byte
+		var qs []int
+		for _, e := range strings.Split(ws[2], ",") {
+			f := strings.Split(e, ":")
+			ts = append(ts, unhex(f[0]))
+			qs = append(qs, atoi(f[1]))
+		}
+		return wSubscribe(atoi(ws[1]), ts, qs)
+	case "pingreq":
+		return []byte{0xc0, 0x00}
+	case "disconnect":
+		return []byte{0xe0, 0x00}
+	}
+	return nil
+}
